@@ -99,7 +99,11 @@ def main(argv=None) -> int:
         n = sum(1 for o in ctx.obligations if o.rule == rid)
         nf = sum(1 for o in ctx.obligations if o.rule == rid and o.status == 'fail')
         print(f'  {rid}: {n} instances, {nf} failing (floor {ctx.floors[rid]})')
+    printed = set()
     for o, k in known_hits:
+        if o.key in printed:
+            continue            # one line per listed finding (a normal-form rewrite can make the same construct appear twice)
+        printed.add(o.key)
         print(f'KNOWN-FINDING: property={pid} {o.rule} {o.file}:{o.line} {o.site} [{o.construct}] {o.detail}')
     rc = 0
     for i, o in enumerate(new):
